@@ -1761,6 +1761,48 @@ func isConstString(info *types.Info, e ast.Expr) bool {
 	return ok && b.Info()&types.IsString != 0
 }
 
+// pureMaskHelper: `func h(p *N) { p.f1 = "lit"; p.f2 = "lit" }` — one parameter of type *N, no results, and a body
+// that consists of nothing but plain assignments of constant strings to direct fields of *p. Returns those fields
+// (nil if the function has any other shape: then `&x` escapes and the caller is no masker).
+func (x *ex) pureMaskHelper(fn *types.Func, named *types.Named) []*types.Var {
+	fd, info := x.decls[fn], x.declInfo[fn]
+	if fd == nil || info == nil || fd.Body == nil || len(fd.Body.List) == 0 {
+		return nil
+	}
+	sig := fn.Type().(*types.Signature)
+	if sig.Recv() != nil || sig.Params().Len() != 1 || sig.Results().Len() != 0 {
+		return nil
+	}
+	pt, ok := sig.Params().At(0).Type().(*types.Pointer)
+	if !ok || !types.Identical(pt.Elem(), named) {
+		return nil
+	}
+	param := sig.Params().At(0)
+	var out []*types.Var
+	for _, s := range fd.Body.List {
+		as, ok := s.(*ast.AssignStmt)
+		if !ok || as.Tok != token.ASSIGN || len(as.Lhs) != len(as.Rhs) {
+			return nil
+		}
+		for i, l := range as.Lhs {
+			sel, ok := unparen(l).(*ast.SelectorExpr)
+			if !ok {
+				return nil
+			}
+			bid, ok := unparen(sel.X).(*ast.Ident)
+			if !ok || info.Uses[bid] != param {
+				return nil
+			}
+			s2, ok := info.Selections[sel]
+			if !ok || s2.Kind() != types.FieldVal || len(s2.Index()) != 1 || !isConstString(info, as.Rhs[i]) {
+				return nil
+			}
+			out = append(out, s2.Obj().(*types.Var))
+		}
+	}
+	return out
+}
+
 // findMaskers: a function `func F() N { x := <N value>; x.f1 = "lit"; …; return x }` whose local x is
 // only ever field-assigned with literals at the top level of the body and never has its address taken
 // returns "N with f1… overwritten by literals".
@@ -1799,7 +1841,26 @@ func (x *ex) findMaskers() {
 		}
 		var masked []*types.Var
 		bad := false
+		helperAddr := map[*ast.UnaryExpr]bool{} // `&x` handed to a pure masking helper
 		for _, s := range fd.Body.List[:len(fd.Body.List)-1] {
+			if es, ok := s.(*ast.ExprStmt); ok {
+				// `helper(&x)` where helper does nothing but `p.f = "lit"` on direct fields of its pointer parameter
+				if ce, ok := es.X.(*ast.CallExpr); ok && len(ce.Args) == 1 {
+					if ue, ok := unparen(ce.Args[0]).(*ast.UnaryExpr); ok && ue.Op == token.AND {
+						if id, ok := unparen(ue.X).(*ast.Ident); ok && info.Uses[id] == obj {
+							if cid, ok := unparen(ce.Fun).(*ast.Ident); ok {
+								if callee, ok := info.Uses[cid].(*types.Func); ok {
+									if flds := x.pureMaskHelper(callee, named); flds != nil {
+										masked = append(masked, flds...)
+										helperAddr[ue] = true
+									}
+								}
+							}
+						}
+					}
+				}
+				continue
+			}
 			as, ok := s.(*ast.AssignStmt)
 			if !ok {
 				continue
@@ -1827,7 +1888,7 @@ func (x *ex) findMaskers() {
 		ast.Inspect(fd.Body, func(n ast.Node) bool {
 			switch e := n.(type) {
 			case *ast.UnaryExpr:
-				if e.Op == token.AND {
+				if e.Op == token.AND && !helperAddr[e] {
 					if id, ok := unparen(e.X).(*ast.Ident); ok && info.Uses[id] == obj {
 						bad = true
 					}
